@@ -99,10 +99,93 @@ ILL = [  # (class, fragment) - inserted into an otherwise well-formed sentence
 ]
 
 
+# ---------------------------------------------------------------------------------------------
+#  animator! blocks (C16)
+def barg_tokens(a):
+    k = a["k"]
+    if k in ("dur", "del"):
+        ms = a["t"] * 125
+        lit = (("%ds" % (ms // 1000)) if ms % 1000 == 0 else dec(ms, 1000) + "s") if a["form"].endswith("s") and not a["form"].endswith("ms") else "%dms" % ms
+        if k == "del": return "after " + lit
+        return ("for " if a["form"].startswith("for_") else "") + lit
+    if k == "kf":
+        pos = a["pos"]
+        head = {"from": "from", "to": "to"}.get(a["form"]) or (("%d%%" % (pos // 2)) if pos % 2 == 0 else dec(pos, 2) + "%")
+        return head + " " + ("default" if a["dflt"] else fields_tokens(a["d"]))
+    return arg_tokens(a)
+
+
+def bsentence(args):
+    return " ".join(barg_tokens(a) for a in args)
+
+
+def btwin_chain(args):
+    out = "G4::timeline()"
+    for a in args:
+        k = a["k"]
+        if k == "dur": out += ".duration_seconds(%d.0 / 1000.0)" % (a["t"] * 125)
+        elif k == "del": out += ".delay_seconds(%d.0 / 1000.0)" % (a["t"] * 125)
+        elif k == "rep": out += ".repeat(Repeat::Infinite)" if a["n"] == -2 else ".repeat(Repeat::Times(%d))" % a["n"]
+        elif k == "rev": out += ".reverse(true)"
+        elif k == "ease": out += ".default_easing(%s)" % ease_path(a["e"])
+        elif k == "kf":
+            p = "0.0" if a["form"] == "from" else "1.0" if a["form"] == "to" else "%s / 100.0" % dec(a["pos"], 2)
+            out += (".keyframe(G4::keyframe_from(&dv, %s))" % p) if a["dflt"] else ".keyframe(G4::keyframe(%s)%s)" % (p, setters(a["d"]))
+    return out
+
+
+def g4_expr(vals):
+    v = [x[0] if x else 0 for x in vals]
+    return "G4 { x: %d.0, y: %d.0, n: %d, m: %d, k: 0.0 }" % tuple(v)
+
+
+def block_tokens(b):
+    d = b["def"]
+    parts = []
+    if d["form"] == "state": parts.append("default(S4::S%d)" % d["st"])
+    elif d["form"] == "inline": parts.append("default(S4::S%d, %s)" % (d["st"], fields_tokens(d["vals"])))
+    elif d["form"] == "expr": parts.append("default(S4::S%d, %s)" % (d["st"], g4_expr(d["vals"])))
+    for arm in b["arms"]:
+        sts = " | ".join("S4::S%d" % s for s in arm["sts"])
+        body = bsentence(arm["body"][0]) if len(arm["body"]) == 1 else "[ " + ", ".join(bsentence(x) for x in arm["body"]) + " ]"
+        parts.append("%s => %s" % (sts, body))
+    return "animator!(G4 { " + ", ".join(parts) + " })"
+
+
+def block_twin(b, s0):
+    d = b["def"]
+    if d["form"] in ("none", "state"): dv = "G4::default()"
+    elif d["form"] == "inline":
+        dv = "{ let mut d = G4::default(); " + " ".join("d.%s = %s;" % (FIELDS[i], ("%d.0" % v[0]) if i < 2 else str(v[0])) for i, v in enumerate(d["vals"]) if v) + " d }"
+    else: dv = g4_expr(d["vals"])
+    out = "{ let dv: G4 = %s; StateAnimatorBuilder::new().from_state(S4::S%d).from_values(dv.clone())" % (dv, s0)
+    for arm in b["arms"]:
+        for s in arm["sts"]:
+            if len(arm["body"]) == 1: out += ".on(S4::S%d, %s)" % (s, btwin_chain(arm["body"][0]))
+            else: out += ".on(S4::S%d, MergedTimeline::of([%s]))" % (s, ", ".join(btwin_chain(x) + ".build()" for x in arm["body"]))
+    return out + ".build() }"
+
+
 def main():
     mode, src, outdir = sys.argv[1:4]
     lines = load(src)
     os.makedirs(outdir, exist_ok=True)
+    if mode == "blocks":
+        with open(os.path.join(outdir, "blocks.rs"), "w") as f:
+            f.write("// generated by bin/gen_macros.py from MC_AnimGrammar output - do not edit\n")
+            f.write("pub const N: usize = %d;\n" % len(lines))
+            f.write("pub fn by_macro(i: usize) -> EnumStateAnimator<S4, G4Timeline> { match i {\n")
+            for i, l in enumerate(lines):
+                f.write("  %d => %s,\n" % (i, block_tokens(l["block"])))
+            f.write("  _ => unreachable!() } }\n")
+            f.write("pub fn by_builder(i: usize) -> EnumStateAnimator<S4, G4Timeline> { match i {\n")
+            for i, l in enumerate(lines):
+                f.write("  %d => %s,\n" % (i, block_twin(l["block"], l["s0"])))
+            f.write("  _ => unreachable!() } }\n")
+        with open(os.path.join(outdir, "blocks.json"), "w") as f:
+            json.dump([{"i": i, "tokens": block_tokens(l["block"])} for i, l in enumerate(lines)], f)
+        print(json.dumps({"blocks": len(lines)}))
+        return
     if mode == "sentences":
         with open(os.path.join(outdir, "sentences.rs"), "w") as f:
             f.write("// generated by bin/gen_macros.py from MC_Grammar output - do not edit\n")
